@@ -259,6 +259,10 @@ class _Globals(dict):
 
 def hookfree_body(t, k):
     """The tracer must not run user-defined code of the program's objects (C03, second sentence)."""
+    from harness.frames import REPR_MSG, representation_ok
+
+    if not representation_ok():
+        return _V.INCONCLUSIVE(REPR_MSG)
     kname, mk = TW.KINDS[t.take(len(TW.KINDS))]
     pos = POSITIONS[t.take(len(POSITIONS))]
     obj = mk()
